@@ -280,6 +280,7 @@ def check_value(acc, ns, scalars=SCALARS, new=None):
         if r is not None and new is not None:
             new.add(prod)
         expect(acc, lambda: k * d, M.in_dur(prod), prod, "C03/duration/rmul", kc, c3)
+        expect(acc, lambda: Duration.multiply(d, k), M.in_dur(prod), prod, "C03/duration/mul", kc + ",alias", c3)
         if k == 0:
             acc.count(transitions=1, evaluations=1)
             try:
@@ -293,6 +294,7 @@ def check_value(acc, ns, scalars=SCALARS, new=None):
         q = M.tdiv(ns, k)
         c4 = {"kind": "dur-scalar", "op": "div", "a": ns, "k": k}
         r = expect(acc, lambda: d / k, M.in_dur(q), q, "C03/duration/div", kc, c4)
+        expect(acc, lambda: Duration.divide(d, k), M.in_dur(q), q, "C03/duration/div", kc + ",alias", c4)
         if r is not None and new is not None:
             new.add(q)
         if M.trem(ns, k) != 0:
@@ -361,6 +363,9 @@ def check_pair(acc, a, b, da, db, new=None, full=True):
             acc.count(nontrivial=1)
     if not full:
         return
+    for name, exact, fn in (("add", a + b, lambda: Duration.add(da, db)), ("add", a + b, lambda: da.plus(db)),
+                            ("sub", a - b, lambda: Duration.subtract(da, db)), ("sub", a - b, lambda: da.minus(db))):
+        expect(acc, fn, M.in_dur(exact), exact, "C03/duration/" + name, cls + ",alias", {"kind": "dur-binop", "op": name, "a": a, "b": b})
     case = {"kind": "dur-compare", "a": a, "b": b}
     for name, f in CMP:
         acc.count(evaluations=1)
@@ -509,7 +514,8 @@ def check_instant_value(acc, ns, durs, offs, new=None):
     for d in durs:
         dd = mk(d)
         for op, exact, fn in (("add", ns + d, lambda: i + dd), ("sub", ns - d, lambda: i - dd),
-                              ("plus", ns + d, lambda: i.plus(dd)), ("minus", ns - d, lambda: i.minus(dd))):
+                              ("plus", ns + d, lambda: i.plus(dd)), ("minus", ns - d, lambda: i.minus(dd)),
+                              ("add", ns + d, lambda: Instant.add(i, dd)), ("sub", ns - d, lambda: Instant.subtract(i, dd))):
             c3 = {"kind": "inst-dur", "op": op, "ns": ns, "d": d}
             ok = M.in_inst(exact)
             r = expect_inst(acc, fn, ok, exact, "C03/instant/" + op, "%s;d=%s,%s" % (cls, sgn(d), nod_rel(ns, d)), c3)
@@ -771,7 +777,8 @@ def run(ctx):
             if len(vals) > cap:
                 # keep a deterministic, evenly spread subset (by rank in |value| order); report the cut
                 step = len(vals) / cap
-                vals = [vals[int(i * step)] for i in range(cap)]
+                off = (ctx.seed % 97) / 97.0          # the seed only shifts which representatives of the value order are taken
+                vals = [vals[min(len(vals) - 1, int((i + off) * step))] for i in range(cap)]
                 ctx.cap("duration-closure level %d: %d new values, %d explored (even spread over the value order)" % (level, len(seen) - len(V), cap))
                 complete = False
             cols = core if (level == 2 or not thorough) else core
@@ -795,7 +802,8 @@ def run(ctx):
         icap = 20000 if thorough else 4000
         if len(lvl2) > icap:
             step = len(lvl2) / icap
-            lvl2 = [lvl2[int(i * step)] for i in range(icap)]
+            off = (ctx.seed % 97) / 97.0
+            lvl2 = [lvl2[min(len(lvl2) - 1, int((i + off) * step))] for i in range(icap)]
             ctx.cap("instant level 2: %d new instants, %d explored (even spread)" % (len(inew), icap))
             complete = False
         cdurs = [0, 1, -1, NSD - 1, -NSD, NSD + 1, M.INST_MAX_NS - M.INST_MIN_NS, -(M.INST_MAX_NS - M.INST_MIN_NS)]
